@@ -13,7 +13,10 @@ class Gen:
     """high-level programs over one or two arenas; tracks what a well-behaved
     caller knows (open scopes, its live blocks and their sizes)"""
 
-    def __init__(self, rng, params, misuse, two):
+    MISUSE_KINDS = ["malloc", "calloc", "strdup", "strndup", "sprintf-short", "sprintf-long", "cleanup", "realloc"]
+
+    def __init__(self, rng, params, misuse, two, misuse_kind=None):
+        self.misuse_kind = misuse_kind
         self.rng = rng
         self.hdr, self.fsz, self.P, self.csz = params
         self.depth = [0, 0]
@@ -66,6 +69,36 @@ class Gen:
         if d == 0:
             self.depth[a] = 1
             return self.emit("enter", "E %d" % a)
+        if self.misuse and self.misuse_kind and not self.misused and d >= 2 and not forced and rng.random() < 0.2:
+            # the one allocation from a non-innermost scope of this program, of a prescribed kind
+            self.misused = True
+            k = rng.randint(1, d - 1)
+            self.queue = ["L"] * k + ["M"] * rng.randint(1, 4)
+            self.qa = a
+            mk = self.misuse_kind
+            mine = self.blocks[a]
+            if mk in ("malloc", "calloc"):
+                n = self.size()
+                mine.append(dict(handle=self.nhandle, size=n, depth=d - 1 - k))
+                self.nhandle += 1
+                return self.emit("misuse-" + mk, "%s %d %d %d" % ("M" if mk == "malloc" else "C", a, k, n))
+            if mk in ("strdup", "strndup", "sprintf-short", "sprintf-long"):
+                n = 5000 if mk == "sprintf-long" else rng.choice([1, 8, 40])
+                bs = bytes(rng.randint(1, 255) for _ in range(n))
+                mine.append(dict(handle=self.nhandle, size=n + 1, depth=d - 1 - k))
+                self.nhandle += 1
+                return self.emit("misuse-" + mk, "S %d %d %d %s" % (a, k, {"strdup": 0, "strndup": 1}.get(mk, 2), bs.hex()))
+            if mk == "cleanup":
+                return self.emit("misuse-cleanup", "U %d %d" % (a, k))
+            if mk == "realloc" and mine:
+                b = mine[-1]
+                n = b["size"] + rng.choice([1, 8, 64, 1000])
+                self.emit("misuse-realloc", "R %d %d %d %d %d" % (a, k, b["handle"], b["size"], n))
+                b["size"] = n
+                b["depth"] = d - 1 - k
+                return
+            self.misused = False
+            self.queue = []
         r = rng.random()
         if forced == "L":
             r = 0.8
@@ -213,7 +246,7 @@ def run(ctx):
         exe = exes[flavour]
         params = params_by[flavour]
         misuse = (t % 4 == 3)
-        g = Gen(rng, params, misuse, two=(t % 3 == 0))
+        g = Gen(rng, params, misuse, two=(t % 3 == 0), misuse_kind=(Gen.MISUSE_KINDS[(t // 4) % len(Gen.MISUSE_KINDS)] if misuse and (t // 4) % 3 != 2 else None))
         nops = rng.choice([20, 60, 150]) if ctx.tier == "quick" else rng.choice([20, 60, 150, 400])
         for _ in range(nops):
             g.step()
